@@ -59,17 +59,10 @@ Definition region_position_trigger (a : attrs) : bool :=
         | _ => false
         end).
 Definition trig_position (d : doc) : bool := existsb (fun r => region_position_trigger (eattrs r)) (d_regions d).
-(* lcd-bg-no-body *)
-Definition trig_nobody (c : lcd_cfg) (d : doc) : bool :=
-  match c_bg c, d_body d with Some _, None => true | _, _ => false end.
-Definition trig_total (c : lcd_cfg) (d : doc) : bool := trig_position d || trig_nobody c d.
 (* lcd-position-survives: tts:position outside regions (content elements, initial values) *)
 Definition trig_position_content (d : doc) : bool :=
   existsb (fun a => shas (e_styles a) p_Position) (body_attrs d) || shas (d_initials d) p_Position ||
   existsb (fun r => existsb (fun a => shas (e_styles a) p_Position) (flat_map elems_of (echildren r))) (d_regions d).
-(* lcd-region-end-zero: a region with end = 0 *)
-Definition trig_end_zero (d : doc) : bool :=
-  existsb (fun r => match e_end (eattrs r) with Some e => Qeq_bool e 0%Q | None => false end) (d_regions d).
 (* lcd-nested-region-conflict: an element with a region attribute below an ancestor associated with another region,
    the two regions being merged by the filter (al = the filter's alias list) *)
 Definition alias_of (al : list (text * text)) (r : text) : text := match lookup_id al r with Some t => t | None => r end.
@@ -88,7 +81,6 @@ Definition trig_nested (c : lcd_cfg) (d : doc) : bool :=
   | Ok al, Some b => nested_conflict al None b
   | _, _ => false
   end.
-Definition trig_timeline (c : lcd_cfg) (d : doc) : bool := trig_end_zero d || trig_nested c d.
 
 (* the whitelist with tts:position tolerated outside region roots (what the finding lcd-position-survives excuses) *)
 Definition whitelist_but_position_b (c : lcd_cfg) (d' : doc) : bool :=
@@ -127,21 +119,19 @@ Definition case_static (c : lcd_cfg) (d : doc) (py : res doc) : list bool :=
     on_ok py (whitelist_b (c_pta c) (c_color c) (c_bg c)) || (trig_position_content d && on_ok py (whitelist_but_position_b c));
     on_ok py (safe_area_b (c_sa c));
     on_ok py (merged_b d);
-    on_ok py (fun d' => refs_resolved_b d' && redirected_b true d d') ||
-      (trig_end_zero d && on_ok py (fun d' => refs_resolved_b d' && redirected_b false d d'));
-    match py with Ok _ => true | Err _ => trig_total c d end;
+    on_ok py (fun d' => refs_resolved_b d' && redirected_b true d d');
+    match py with Ok _ => true | Err _ => trig_position d end;
     (* the model run again on the implementation's result gives that result back *)
     on_ok py (fun d' => lcd_outcome_close (lcd c d') (Ok d')) ].
 (* the same without the excuses: tells whether a finding still fires *)
 Definition case_strict (c : lcd_cfg) (d : doc) (py : res doc) : list bool :=
   [ on_ok py (whitelist_b (c_pta c) (c_color c) (c_bg c));
-    on_ok py (fun d' => refs_resolved_b d' && redirected_b true d d');
     match py with Ok _ => true | Err _ => false end ].
-(* timeline at the query times: required when the document hides nothing and no timeline trigger fires *)
+(* timeline at the query times: required when the document hides nothing and the nested-conflict trigger does not fire *)
 Definition case_timeline (c : lcd_cfg) (d : doc) (py : res doc) (ts : list Q) : list bool :=
-  map (fun t => (on_ok py (fun d' => timeline_b d d' t) || negb (no_hiding_b d) || trig_timeline c d) &&
+  map (fun t => (on_ok py (fun d' => timeline_b d d' t) || negb (no_hiding_b d) || trig_nested c d) &&
                 (* whatever the document hides, nothing visible before is lost (the filter only removes display styling) *)
-                (on_ok py (fun d' => timeline_kept_b d d' t) || trig_end_zero d)) ts.
+                on_ok py (fun d' => timeline_kept_b d d' t)) ts.
 Definition case_timeline_strict (d : doc) (py : res doc) (ts : list Q) : list bool :=
   map (fun t => on_ok py (fun d' => timeline_b d d' t) || negb (no_hiding_b d)) ts.
 (* configured colour / background / centred alignment in the snapshots (Model/Isd.v) of the result *)
